@@ -232,7 +232,7 @@ def _satisfies(clauses, model):
     return True
 
 
-def _bridge(fidx, solver, sameas_kind, installed_bit, verdict, bits, layout, comments, trailing_zero, fail_run, api):
+def _bridge(fidx, solver, sameas_kind, installed_bit, verdict, bits, layout, comments, trailing_zero, fail_run, api, auto=None):
     """One call of the real bridge in a fake world; True iff the outcome is the documented one."""
     n, clauses = FORMULAS[fidx]
     model = [bool(bits >> i & 1) for i in range(n)]
@@ -257,6 +257,16 @@ def _bridge(fidx, solver, sameas_kind, installed_bit, verdict, bits, layout, com
     elif sameas_kind == 4:
         sameas = 'nosuchsolver'
     installed = {name} if installed_bit else set()
+    sameas_arg = sameas
+    if auto is not None:
+        # no command line given: the first installed supported solver (in the documented table order) is used
+        installed = {NAMES[i] for i in range(len(NAMES)) if auto >> i & 1}
+        cmd = None if layout != 1 else '  '
+        sameas = None if sameas_kind != 4 else sameas
+        first = [nm for nm in NAMES if nm in installed]
+        name = first[0] if first else None
+        unknown = False
+        installed_bit = bool(first)
     w = World(n, [list(c) for c in clauses], installed, verdict, model, layout, comments, trailing_zero, fail_run, None)
     F = CNF([list(c) for c in clauses])
     F.update_variable_number(n)
@@ -267,9 +277,9 @@ def _bridge(fidx, solver, sameas_kind, installed_bit, verdict, bits, layout, com
         res = None
         try:
             if api == 0:
-                res = F.solve(cmd=cmd, sameas=sameas)
+                res = F.solve(cmd=cmd, sameas=sameas_arg)
             else:
-                res = F.is_satisfiable(cmd=cmd, sameas=sameas)
+                res = F.is_satisfiable(cmd=cmd, sameas=sameas_arg)
         except (RuntimeError, ValueError, TypeError) as e:
             exc = type(e).__name__
     finally:
@@ -391,6 +401,28 @@ def h_e_parse_7(iface: int, verdict: int, bits: int, layout: int, comments: bool
     """
     return untraced(_bridge, 7, IFACE[pick(iface, 0, 2)], 0, True, pick(verdict, 0, 3), pick(bits, 0, 7), pick(layout, 0, 2),
                     pickb(comments), pickb(trailing_zero), False, pick(api, 0, 1))
+
+
+def _auto_set(first, more):
+    if first >= 11:
+        return 0
+    a = 1 << first
+    if more:
+        for i in range(first + 1, 11):
+            a |= 1 << i
+    return a
+
+
+def h_e_auto(first: int, more: bool, sameas_kind: int, verdict: int, layout: int, api: int) -> bool:
+    """
+    pre: 0 <= first <= 11 and 0 <= sameas_kind <= 4 and 0 <= verdict <= 1 and 0 <= layout <= 1 and 0 <= api <= 1
+    post: _
+    """
+    # no command line: which of the installed solvers is used (first supported one that is installed; solvers
+    # before it are missing, later ones all present or all absent) and through which convention
+    v = pick(verdict, 0, 1)
+    return untraced(_bridge, 3 if v == 0 else 6, 0, pick(sameas_kind, 0, 4), True, v, 1, pick(layout, 0, 1), False, True, False,
+                    pick(api, 0, 1), _auto_set(pick(first, 0, 11), pickb(more)))
 
 
 # --------------------------------------------------------------- symbolic variant
